@@ -163,6 +163,25 @@ def run_encodings(ctx, P):
             for c in clone(cs):
                 alone.append(c)
             ctx.equal(f"member {name}: its timeframe received every candle", ohlcv(ind.candles), ohlcv(alone.candles))
+        # ... also when the set of members changes half way: one of two members sharing a timeframe is removed, the only
+        # member of another timeframe is removed, a new member joins a timeframe already in use
+        h2 = make()
+        src = clone(cs)
+        for c in src[: n // 2]:
+            h2.append(c)
+        names = list(h2.indicators)
+        h2.remove_indicator(names[3])      # WMA on 't2' (EMA stays on 'T2')
+        h2.remove_indicator(names[2])      # SMA, alone on T3
+        h2.remove_indicator(names[6])      # TR on TimeFrame.MINUTE (RMA and HLA stay on that timeframe)
+        h2.add_indicator(build("SMA", dict(period=2), timeframe="T2", name_suffix="late"))
+        for c in src[n // 2:]:
+            h2.append(c)
+        for name, ind in h2.indicators.items():
+            alone = CandleManager([], timeframe=ind.timeframe)
+            for c in clone(cs):
+                alone.append(c)
+            ctx.equal(f"member {name}: its timeframe received every candle although other members came and went", ohlcv(ind.candles), ohlcv(alone.candles))
+            ctx.require(f"member {name}: Hexital.candles(its timeframe) is its candle list", h2.candles(ind.timeframe) is ind.candles or ohlcv(h2.candles(ind.timeframe)) == ohlcv(ind.candles)) if ind.timeframe else None
     labels = [l for l, _ in encodings(cs[0])]
     for li, label in enumerate(labels):
         h = make()
